@@ -34,20 +34,21 @@ const TINY_SIZES: [usize; 6] = [43, 42, 44, 41, 20, 40];
 
 /// source address used for spoofed copies of genuine client datagrams (`spoof_pm`); replies to it are recorded
 /// (`to-spoofed`) and go nowhere
-pub const SPOOFER: ([u8; 4], u16) = ([10, 77, 77, 77], 7777);
+pub const SPOOFER: ([u8; 4], u16) = ([1, 0, 77, 77], 7777);
 
 fn spoofer_addr() -> s2n_quic_core::inet::SocketAddress {
     std::net::SocketAddr::from(SPOOFER).into()
 }
 
-/// k-th spoofed source address (10.77.77.(77 + k), k = 0 is `SPOOFER`)
+/// k-th spoofed source address (1.0.77.(77 + k), k = 0 is `SPOOFER`). The addresses are in the same (global) unicast scope
+/// as the client's: the default migration validator denies a change of IP scope before a path is even created
 fn spoofer_addr_k(k: u64) -> s2n_quic_core::inet::SocketAddress {
-    std::net::SocketAddr::from(([10, 77, 77, 77u8.wrapping_add(k as u8)], SPOOFER.1)).into()
+    std::net::SocketAddr::from(([1, 0, 77, 77u8.wrapping_add(k as u8)], SPOOFER.1)).into()
 }
 
 fn is_spoofer(a: &s2n_quic_core::inet::SocketAddress) -> bool {
     let s = format!("{a}");
-    s.starts_with("10.77.77.")
+    s.starts_with("1.0.77.")
 }
 
 fn attacker_addr() -> s2n_quic_core::inet::SocketAddress {
